@@ -201,10 +201,10 @@ func runC07Read(ctx *core.Ctx, r *core.Rng) {
 		sz = fmts.Medium
 	case x < 40:
 		sz = fmts.Multi
-	case x < 42 && ctx.Tier == "thorough":
+	case x < 41 && ctx.Tier == "thorough":
 		sz = fmts.Large // offsets sampled, never enumerated
 	}
-	if r.Chance(0.0006) || ctx.Tier == "thorough" && r.Chance(0.004) {
+	if r.Chance(0.0006) || ctx.Tier == "thorough" && r.Chance(0.001) {
 		sz = fmts.Huge // a line beyond 1 MiB; offsets sampled
 	}
 	w, ref, ok := wellFormed(ctx, r, f, sz)
@@ -226,7 +226,7 @@ func runC07Read(ctx *core.Ctx, r *core.Rng) {
 		}
 		nrand := 120
 		if sz == fmts.Huge {
-			nrand = 40
+			nrand = 25
 		}
 		for i := 0; i < nrand; i++ {
 			k := r.Intn(len(w) + 1)
